@@ -14,6 +14,18 @@ Contracts (from the property statement; DESIGN.md §2 C05), attached to the real
      ring systems without unsaturated four-membered rings).
   N  numbering independence: canonical aromatic string after kekule(); thiele() is the same for renumbered copies.
   S  spelling independence: the aromatic and the Kekule spelling of one generated molecule normalise to the same canonical string.
+Coverage audit extension (same contracts, wider domain: options, call sequences, input classes of oracles/o05_classes.py):
+  B  kekule(buffer_size=b) for other values of the only keyword: K's post-condition on the input; on the aromatic normal form
+     (every hydrogen count known) the result aromatises back to the same form.
+  TF thiele(fix_tautomers=False): T's post-condition in full (not only the hydrogen clause), stability of the cycle with that option,
+     same aromatic bonds as the default call whenever the default call moved no hydrogen, and (sampled in the quick tier) every
+     enumerated form aromatises to the same form with that option too.
+  TD thiele() called directly on a parsed input that still has aromatic bonds (aromatic or mixed spelling, no kekule() first): same
+     atoms, pairs, charges, radicals, known hydrogens (except N); second call changes nothing; kekule(); thiele() of the result is the
+     one aromatic form of the molecule.
+  E5 enumerate_kekule() consumed lazily: a form already handed out is not changed by the later steps of the generator.
+  N  additionally: atom numbers > 999 with gaps, descending numbers, and a rebuilt container whose atom / bond / neighbour
+     insertion order is shuffled (remap() alone keeps the insertion order, i.e. the traversal start of the search).
 """
 import itertools
 from collections import Counter
@@ -24,6 +36,8 @@ from vlib.report import pmap
 RULE = ('non-trivial = distinct canonical molecules that have at least one aromatic ring after kekule(); thiele() (a bond of order 4); '
         'evaluations = input spellings driven through all contracts')
 MAXFORMS = 32
+THOROUGH = [False]     # set by bounded() before the workers are forked
+BUFFERS = {False: ((0, 1), (0,)), True: ((0, 1, 2, 3, 50), (0, 1, 3))}     # tier -> (on the input, on the aromatic normal form)
 MAXV = 300      # violations returned per work item (the parent reports one minimal witness per contract and template family)
 
 
@@ -34,18 +48,21 @@ def _setup():
 
 
 def canon(m, stereo):
+    if not len(m):      # the SMILES writer has no empty string (not a matter of this property)
+        return ''
     return str(m) if stereo else format(m, '!s')
 
 
-def same(a, b, stereo, stats=None):
+def same(a, b, stereo, stats=None, sb=None):
     """same molecule: equal canonical strings, or (strings differ) isomorphic by the independent attribute-aware enumerator - a
-    canonical-string difference between isomorphic molecules belongs to property C01 and is only counted here"""
-    if canon(a, stereo) == canon(b, stereo):
+    canonical-string difference between isomorphic molecules belongs to property C01 and is only counted here
+    (sb: canonical string of b computed before by the caller)"""
+    if canon(a, stereo) == (canon(b, stereo) if sb is None else sb):
         return True
     from oracles import iso
     if iso.is_isomorphic(a, b):
         if stats is not None:
-            stats.append((canon(a, stereo), canon(b, stereo)))
+            stats.append((canon(a, stereo), canon(b, stereo) if sb is None else sb))
         return True
     return False
 
@@ -83,7 +100,7 @@ def post_kekule(k, ref, tag, allowed, name='K'):
     o4 = sorted(sorted(e) for e, o in G.orders(k).items() if o == 4)
     if o4:
         bad.append((f'{name}4-aromatic-bond-left', f'{tag}: bonds of order 4 left: {o4[:4]}'))
-    cv = k.check_valence()
+    cv = [n for n in k.check_valence() if k._atoms[n].implicit_hydrogens is not None]   # no count at all: reported below (K9)
     if cv:
         bad.append((f'{name}5-valence', f'{tag}: check_valence() = {cv}'))
     dh = sorted((n, rhs[n], hs[n]) for n in hs if rhs.get(n) is not None and hs[n] != rhs[n] and n not in allowed)
@@ -100,20 +117,118 @@ def post_kekule(k, ref, tag, allowed, name='K'):
             envn = [(b.order, k._atoms[x].atomic_symbol) for x, b in k._bonds[n].items() if b.order != 8]
             exp = V.expected(a.atomic_symbol, a.charge, a.is_radical, envn)
             if a.implicit_hydrogens != exp:
+                none = sorted(x for x, y in k.atoms() if y.implicit_hydrogens is None)
                 bad.append((f'{name}9-hydrogens-stale', f'{tag}: atom {n} {a.atomic_symbol} implicit_hydrogens={a.implicit_hydrogens}, '
-                            f'bonds give {exp}'))
+                            f'bonds give {exp}' + (f'; atoms left without a hydrogen count: {none}, check_valence() = {k.check_valence()}'
+                                                   if none else '')))
                 break
     return bad
 
 
-def check_molecule(m0, tag, stereo=False, seed=0, n_renumber=2, rdkit_smiles=None, c01=None):
+def post_thiele(k, kref, kformula, tag, fix, name, stereo):
+    """post-condition of thiele() (fix=True: default call; fix=False: fix_tautomers=False) on the Kekule form k;
+    returns (violations, aromatic form, its snapshot, its bond orders, has aromatic bond, canonical string)"""
+    from oracles import o05_graph as G
+    bad = []
+    call = 'thiele()' if fix else 'thiele(fix_tautomers=False)'
+    a = k.copy()
+    tret = a.thiele() if fix else a.thiele(fix_tautomers=False)
+    at = G.snapshot(a)
+    if at[0] != kref[0] or at[1] != kref[1]:
+        bad.append((f'{name}1-connectivity', f'{tag}: {call} changed atoms / bonded pairs'))
+    if at[2] != kref[2] or at[3] != kref[3]:
+        bad.append((f'{name}1-charges-radicals', f'{tag}: {call} changed charges / radicals'))
+    if G.formula(a) != kformula:
+        bad.append((f'{name}1-formula', f'{tag}: {call} changed the formula {kformula} -> {G.formula(a)}'))
+    if fix:
+        dh = sorted((n, kref[4][n], at[4][n]) for n in at[4] if at[4][n] != kref[4][n] and a._atoms[n].atomic_number != 7)
+        if dh:
+            bad.append((f'{name}1-atom-hydrogens', f'{tag}: {call} changed hydrogens of non-nitrogen atoms (atom, before, after): {dh}'))
+    elif at[4] != kref[4] or at[2] != kref[2]:
+        bad.append(('T1-atom-hydrogens-no-tautomer-fix', f'{tag}: {call} changed per-atom hydrogens / charges'))
+    aro_orders = G.orders(a)
+    has_ring = any(o == 4 for o in aro_orders.values())
+    if bool(tret) != has_ring:
+        bad.append((f'{name}8-return', f'{tag}: {call} returned {tret} but aromatic bonds present: {has_ring}'))
+    rb = G.ring_bond_set(a)
+    off = sorted(sorted(e) for e, o in aro_orders.items() if o == 4 and e not in rb)
+    if off:
+        bad.append((f'{name}5-aromatic-bond-outside-ring', f'{tag}: after {call} aromatic bonds that are not ring bonds: {off[:4]}'))
+    for n, at_ in a.atoms():
+        os_ = [b.order for b in a._bonds[n].values()]
+        if at_.hybridization != G.hybridization(os_):
+            bad.append((f'{name}3-hybridization-label', f'{tag}: after {call} atom {n} hybridization label {at_.hybridization}, bonds {sorted(os_)}'))
+            break
+        if 4 in os_ and sum(1 for o in os_ if o == 4) < 2:
+            bad.append((f'{name}5-single-aromatic-bond', f'{tag}: after {call} atom {n} has exactly one aromatic bond'))
+            break
+    sa = canon(a, stereo)
+    a2 = a.copy()
+    a2.thiele() if fix else a2.thiele(fix_tautomers=False)
+    if G.orders(a2) != aro_orders or G.snapshot(a2) != at or canon(a2, stereo) != sa:
+        bad.append((f'{name}2-idempotent', f'{tag}: second {call} changed the molecule: {sa} -> {canon(a2, stereo)}'))
+    return bad, a, at, aro_orders, has_ring, sa
+
+
+def bfs_rebuild(m, start):
+    """fresh container, same atom numbers and attributes, atoms inserted in breadth-first order from `start` (bonds in that order too)"""
+    from chython.containers import MoleculeContainer
+    from chython.containers.bonds import Bond
+    order, seen, i = [start], {start}, 0
+    while len(order) < len(m):
+        if i == len(order):      # next component
+            x = next(n for n in m if n not in seen)
+            order.append(x)
+            seen.add(x)
+        cur = order[i]
+        i += 1
+        for nb in m._bonds[cur]:
+            if nb not in seen:
+                seen.add(nb)
+                order.append(nb)
+    new = MoleculeContainer()
+    for n in order:
+        a = m._atoms[n]
+        new.add_atom(type(a)(a.isotope, charge=a.charge, is_radical=a.is_radical, x=a.x, y=a.y, implicit_hydrogens=a.implicit_hydrogens), n,
+                     _skip_calculation=True)
+    done = set()
+    for n in order:
+        for k, b in m._bonds[n].items():
+            if (k, n) not in done:
+                done.add((n, k))
+                new.add_bond(n, k, Bond(b.order), _skip_calculation=True)
+    new.calc_labels()
+    new._changed = None
+    return new
+
+
+def special_numbering(m0, r, kind):
+    """(copy, description, map back to the numbers of m0 or None): numbering classes that domains.renumber() does not produce"""
+    from bounded import domains
+    nums = sorted(m0)
+    if kind == 'descending>999':          # first atom gets the largest number, all numbers > 999
+        mp = {n: 1000 + len(nums) - i for i, n in enumerate(nums)}
+    elif kind == 'gaps>999':              # random numbers with gaps, up to four digits
+        mp = dict(zip(nums, r.sample(range(1000, 9000), len(nums))))
+    elif kind == 'insertion-order':       # same numbers, fresh container with shuffled atom / bond / neighbour insertion order
+        return domains.rebuild(m0, r), 'rebuilt with shuffled insertion order', None
+    else:
+        raise ValueError(kind)
+    c = m0.copy()
+    c.remap(mp)
+    return c, f'{kind} {mp}', {v: k_ for k_, v in mp.items()}
+
+
+def check_molecule(m0, tag, stereo=False, seed=0, n_renumber=2, rdkit_smiles=None, c01=None, full=False):
     """all contracts on the parsed (not normalised) input m0; returns (violations [(contract, what)], (canonical aromatic string, aromatic
-    normal form) or None / "rejected", has aromatic ring)"""
+    normal form) or None / "rejected", has aromatic ring).  full: evaluate the sampled clauses (EF, all numbering classes) always"""
     import random
     from oracles import o05_graph as G
     from bounded import domains
     from chython.exceptions import InvalidAromaticRing
     bad = []
+    thorough = THOROUGH[0]
+    full = full or thorough
     ref = G.snapshot(m0)
     ref_formula = G.formula(m0)
     in_orders = G.orders(m0)
@@ -157,79 +272,105 @@ def check_molecule(m0, tag, stereo=False, seed=0, n_renumber=2, rdkit_smiles=Non
         bad.append(('K7-idempotent', f'{tag}: second kekule() returned {ret2} / changed the molecule: {canon(k, stereo)} -> {canon(k2, stereo)}'))
     if rdkit_smiles is not None and had_aromatic and not any(c == 'K6-atom-hydrogens' for c, _ in bad):
         from rdkit import Chem
-        r = Chem.MolFromSmiles(rdkit_smiles)
-        if r is not None and r.GetNumAtoms() == len(k):
-            for (n, a), ra in zip(k.atoms(), r.GetAtoms()):
+        rd = Chem.MolFromSmiles(rdkit_smiles)
+        if rd is not None and rd.GetNumAtoms() == len(k):
+            for (n, a), ra in zip(k.atoms(), rd.GetAtoms()):
                 if a.atomic_number != ra.GetAtomicNum():
                     raise RuntimeError(f'atom order mismatch chython / RDKit for {rdkit_smiles}')
                 th = None if a.implicit_hydrogens is None else a.implicit_hydrogens + a.explicit_hydrogens
-                if n not in allowed and (th != ra.GetTotalNumHs() or a.charge != ra.GetFormalCharge()):
+                rh = ra.GetTotalNumHs(includeNeighbors=True)     # hydrogen atoms kept in the graph ([2H]) count on both sides
+                if n not in allowed and (th != rh or a.charge != ra.GetFormalCharge()):
                     bad.append(('K10-rdkit-atom', f'{tag}: atom {n} {a.atomic_symbol}: after kekule() H={th} charge={a.charge}; '
-                                f'RDKit H={ra.GetTotalNumHs()} charge={ra.GetFormalCharge()}'))
+                                f'RDKit H={rh} charge={ra.GetFormalCharge()}'))
                     break
-    if any(c.startswith(('K1', 'K2', 'K3', 'K4', 'K5', 'K6')) for c, _ in bad):
+    if any(c.startswith(('K1', 'K2', 'K3', 'K4', 'K5', 'K6', 'K9-hydrogens')) for c, _ in bad):
         return bad, None, False     # the Kekule form is not the input molecule: the later clauses have no premise
     kref = G.snapshot(k)
     kformula = G.formula(k)
 
-    # ---- T
-    a = k.copy()
-    tret = a.thiele()
-    at = G.snapshot(a)
-    if at[0] != kref[0] or at[1] != kref[1]:
-        bad.append(('T1-connectivity', f'{tag}: thiele() changed atoms / bonded pairs'))
-    if at[2] != kref[2] or at[3] != kref[3]:
-        bad.append(('T1-charges-radicals', f'{tag}: thiele() changed charges / radicals'))
-    if G.formula(a) != kformula:
-        bad.append(('T1-formula', f'{tag}: thiele() changed the formula {kformula} -> {G.formula(a)}'))
-    dh = sorted((n, kref[4][n], at[4][n]) for n in at[4] if at[4][n] != kref[4][n] and a._atoms[n].atomic_number != 7)
-    if dh:
-        bad.append(('T1-atom-hydrogens', f'{tag}: thiele() changed hydrogens of non-nitrogen atoms (atom, before, after): {dh}'))
-    aro_orders = G.orders(a)
-    has_ring = any(o == 4 for o in aro_orders.values())
-    if bool(tret) != has_ring:
-        bad.append(('T8-return', f'{tag}: thiele() returned {tret} but aromatic bonds present: {has_ring}'))
-    rb = G.ring_bond_set(a)
-    off = sorted(sorted(e) for e, o in aro_orders.items() if o == 4 and e not in rb)
-    if off:
-        bad.append(('T5-aromatic-bond-outside-ring', f'{tag}: aromatic bonds that are not ring bonds: {off[:4]}'))
-    for n, at_ in a.atoms():
-        os_ = [b.order for b in a._bonds[n].values()]
-        if at_.hybridization != G.hybridization(os_):
-            bad.append(('T3-hybridization-label', f'{tag}: after thiele() atom {n} hybridization label {at_.hybridization}, bonds {sorted(os_)}'))
-            break
-        if 4 in os_ and sum(1 for o in os_ if o == 4) < 2:
-            bad.append(('T5-single-aromatic-bond', f'{tag}: atom {n} has exactly one aromatic bond'))
-            break
-    sa = canon(a, stereo)
-    a2 = a.copy()
-    a2.thiele()
-    if G.orders(a2) != aro_orders or G.snapshot(a2) != at or canon(a2, stereo) != sa:
-        bad.append(('T2-idempotent', f'{tag}: second thiele() changed the molecule: {sa} -> {canon(a2, stereo)}'))
-    nt = k.copy()
-    nt.thiele(fix_tautomers=False)
-    ntt = G.snapshot(nt)
-    if ntt[4] != kref[4] or ntt[2] != kref[2]:
-        bad.append(('T1-atom-hydrogens-no-tautomer-fix', f'{tag}: thiele(fix_tautomers=False) changed per-atom hydrogens / charges'))
+    # ---- B: the keyword of kekule() on the input (any value must give a Kekule form of the input; contract names of K)
+    for bs in BUFFERS[thorough][0]:
+        kb = m0.copy()
+        try:
+            rb_ = kb.kekule(buffer_size=bs)
+        except InvalidAromaticRing as e:
+            bad.append(('B-buffer-rejected', f'{tag}: kekule(buffer_size={bs}) raises InvalidAromaticRing ({e}) but kekule() finds a form'))
+            continue
+        bad += post_kekule(kb, ref, f'{tag} [kekule(buffer_size={bs})]', allowed)
+        if bool(rb_) != bool(ret):
+            bad.append(('B-buffer-return', f'{tag}: kekule(buffer_size={bs}) returned {rb_}, kekule() returned {ret}'))
+
+    # ---- T (default call) and TF (fix_tautomers=False)
+    pt, a, at, aro_orders, has_ring, sa = post_thiele(k, kref, kformula, tag, True, 'T', stereo)
+    bad += pt
+    pt, a_nt, at_nt, nt_orders, nt_ring, sa_nt = post_thiele(k, kref, kformula, tag, False, 'TF', stereo)
+    bad += pt
+    moved = at[4] != at_nt[4]
+    if not moved and nt_orders != aro_orders:
+        uniqueness('TF-differs-from-default', f'{tag}: the default thiele() moved no hydrogen but gives {sa}, thiele(fix_tautomers=False) gives {sa_nt}')
     # stability of the cycle
-    b = a.copy()
-    try:
-        b.kekule()
-        pb = post_kekule(b, at, tag + ' [kekule of thiele form]', set(), name='C')
-        bad += pb
-        b.thiele()
-        if not same(b, a, stereo, c01):
-            uniqueness('C-cycle-stable', f'{tag}: thiele(kekule(thiele(m))) = {canon(b, stereo)} != thiele(m) = {sa}')
-    except InvalidAromaticRing as e:
-        bad.append(('C-cycle-rejected', f'{tag}: kekule() of the aromatic form {sa} raises InvalidAromaticRing: {e}'))
+    for fix, x, xt, sx, name in ((True, a, at, sa, 'C'), (False, a_nt, at_nt, sa_nt, 'CF')):
+        if not fix and nt_orders == aro_orders and at == at_nt:
+            continue      # same molecule object state as the default form: nothing new to run
+        b = x.copy()
+        try:
+            b.kekule()
+            bad += post_kekule(b, xt, tag + (' [kekule of thiele form]' if fix else ' [kekule of thiele(fix_tautomers=False) form]'), set(), name=name)
+            b.thiele() if fix else b.thiele(fix_tautomers=False)
+            if not same(b, x, stereo, c01, sx):
+                uniqueness(f'{name}-cycle-stable', f'{tag}: thiele(kekule(thiele(m))) = {canon(b, stereo)} != thiele(m) = {sx}'
+                           + ('' if fix else ' (all with fix_tautomers=False)'))
+        except InvalidAromaticRing as e:
+            bad.append((f'{name}-cycle-rejected', f'{tag}: kekule() of the aromatic form {sx} raises InvalidAromaticRing: {e}'))
+    # the keyword of kekule() on the aromatic normal form (every hydrogen count known): must come back to the same form
+    for bs in BUFFERS[thorough][1]:
+        b = a.copy()
+        try:
+            b.kekule(buffer_size=bs)
+            bad += post_kekule(b, at, f'{tag} [kekule(buffer_size={bs}) of thiele form]', set(), name='CB')
+            b.thiele()
+            if not same(b, a, stereo, c01, sa):
+                uniqueness('CB-cycle-stable', f'{tag}: thiele(kekule(thiele(m), buffer_size={bs})) = {canon(b, stereo)} != thiele(m) = {sa}')
+        except InvalidAromaticRing as e:
+            bad.append(('CB-cycle-rejected', f'{tag}: kekule(buffer_size={bs}) of the aromatic form {sa} raises InvalidAromaticRing: {e}'))
+
+    # ---- TD: thiele() straight on the parsed input that still has aromatic bonds (aromatic or mixed spelling)
+    if had_aromatic:
+        d = m0.copy()
+        d.thiele()
+        ds = G.snapshot(d)
+        if ds[0] != ref[0] or ds[1] != ref[1]:
+            bad.append(('TD1-connectivity', f'{tag}: thiele() on the parsed input changed atoms / bonded pairs'))
+        if ds[2] != ref[2] or ds[3] != ref[3]:
+            bad.append(('TD1-charges-radicals', f'{tag}: thiele() on the parsed input changed charges / radicals'))
+        dh = sorted((n, ref[4][n], ds[4][n]) for n in ds[4] if ref[4][n] is not None and ds[4][n] != ref[4][n] and d._atoms[n].atomic_number != 7)
+        if dh:
+            bad.append(('TD1-atom-hydrogens', f'{tag}: thiele() on the parsed input changed known hydrogens of non-nitrogen atoms '
+                        f'(atom, before, after): {dh}'))
+        d2 = d.copy()
+        d2.thiele()
+        if G.orders(d2) != G.orders(d) or G.snapshot(d2) != ds:
+            bad.append(('TD2-idempotent', f'{tag}: second thiele() on the parsed input changed the molecule: {canon(d, stereo)} -> {canon(d2, stereo)}'))
+        if not moved:    # a hydrogen moved by the tautomer fix on a half-aromatic input may pick another tautomer: no claim there
+            try:
+                d.kekule()
+                d.thiele()
+                if not same(d, a, stereo, c01, sa):
+                    uniqueness('TD-normalises-differently', f'{tag}: thiele(); kekule(); thiele() gives {canon(d, stereo)}, kekule(); thiele() gives {sa}')
+            except InvalidAromaticRing as e:
+                bad.append(('TD-rejected', f'{tag}: after thiele() on the parsed input kekule() raises InvalidAromaticRing: {e}'))
 
     # ---- E (inputs whose every atom has a hydrogen count: the aromatic normal form, and the input itself when it qualifies)
+    ef = (full or random.Random(f'{seed}:ef:{tag}').random() < .25) and not moved and not four
     sources = [('normal form', a, at)]
     if had_aromatic and all(h is not None for h in ref[4].values()):
         sources.append(('input', m0, ref))
     for label, src, sref in sources:
         e0 = src.copy()
-        forms = list(itertools.islice(e0.enumerate_kekule(), MAXFORMS + 1))
+        forms, at_yield = [], []
+        for f in itertools.islice(e0.enumerate_kekule(), MAXFORMS + 1):     # consumed lazily: state of each form when handed out
+            forms.append(f)
+            at_yield.append(tuple(sorted((tuple(sorted(e)), o) for e, o in G.orders(f).items())))
         complete = len(forms) <= MAXFORMS
         forms = forms[:MAXFORMS]
         if has_ring and not forms:
@@ -238,7 +379,7 @@ def check_molecule(m0, tag, stereo=False, seed=0, n_renumber=2, rdkit_smiles=Non
         kk = src.copy()
         kk.kekule()
         korders = tuple(sorted((tuple(sorted(e)), o) for e, o in G.orders(kk).items()))
-        differ = []
+        differ, differ_nt = [], []
         for i, f in enumerate(forms):
             pf = post_kekule(f, sref, f'{tag} [{label}: enumerated form {i}]', allowed if label == 'input' else set(), name='E')
             if G.formula(f) != G.formula(src):
@@ -247,42 +388,76 @@ def check_molecule(m0, tag, stereo=False, seed=0, n_renumber=2, rdkit_smiles=Non
                 bad += pf[:2]
                 break
             fo = tuple(sorted((tuple(sorted(e)), o) for e, o in G.orders(f).items()))
+            if fo != at_yield[i]:
+                bad.append(('E5-form-changed-after-yield', f'{tag}: {label}: enumerated form {i} was changed by the later steps of the generator'))
+                break
             if fo in seen:
                 bad.append(('E2-duplicate-forms', f'{tag}: {label}: enumerated forms {seen[fo]} and {i} are identical'))
                 break
             seen[fo] = i
             if not four:
+                if ef:
+                    f2 = f.copy()
+                    f2.thiele(fix_tautomers=False)
+                    if not same(f2, a_nt, stereo, c01, sa_nt):
+                        differ_nt.append((i, canon(f2, stereo)))
                 f.thiele()
-                if not same(f, a, stereo, c01):
+                if not same(f, a, stereo, c01, sa):
                     differ.append((i, canon(f, stereo)))
         if forms and complete and korders not in seen and not any(c.startswith('E') for c, _ in bad):
             bad.append(('E4-kekule-form-not-enumerated', f'{tag}: {label}: the form chosen by kekule() {canon(kk, stereo)} is not among the {len(forms)} enumerated forms'))
         if differ:
             bad.append(('E3-forms-aromatise-differently', f'{tag}: {label}: thiele(kekule(m)) = {sa}; of {len(forms)} enumerated forms these aromatise differently: {differ[:4]}'))
+        elif differ_nt:
+            bad.append(('EF3-forms-aromatise-differently', f'{tag}: {label}: thiele(kekule(m), fix_tautomers=False) = {sa_nt}; of {len(forms)} enumerated '
+                        f'forms these aromatise differently with fix_tautomers=False: {differ_nt[:4]}'))
 
     # ---- N (premise: a unique aromatic form - not evaluated when E3 already failed for this input)
     r = random.Random(f'{seed}:{tag}')
-    for i in range(0 if any(c == 'E3-forms-aromatise-differently' for c, _ in bad) else n_renumber):
-        c, mp = domains.renumber(m0, r, offset=r.choice((0, 0, 7)))
+    kinds = ['random'] * n_renumber
+    special = ['insertion-order', 'gaps>999', 'descending>999']
+    kinds += special if full else ['insertion-order', r.choice(special[1:])]
+    ncontract, nnote = 'N-numbering', ''
+    # independent predicate on the input: several ring N whose hydrogen count the input leaves open (no [nH] / MDL aromatic bonds), of which
+    # kekule() had to give a hydrogen to a proper subset - WHICH of them is not determined by the input.  Own contract name, and a
+    # deterministic family of traversal starts (insertion order = breadth-first order from every atom) instead of the seeded ones.
+    open_n = {n for n, x in m0.atoms() if x.atomic_number == 7 and ref[4][n] is None and any(o == 4 for o in G.adjacency(m0)[n].values())}
+    got_h = {n for n in open_n if kref[4][n]}
+    if len(open_n) > 1 and got_h and got_h != open_n:
+        ncontract = 'N-numbering-undetermined-NH'
+        nnote = (f'; the input leaves the hydrogen count of the ring N atoms {sorted(open_n)} open, kekule() put the hydrogen on {sorted(got_h)} '
+                 f'in the original order')
+        kinds = [('bfs', x) for x in sorted(m0)[:40]]
+    if any(c == 'E3-forms-aromatise-differently' for c, _ in bad):
+        kinds = []
+    for kind in kinds:
+        if kind[0] == 'bfs':
+            c, mp, inv = bfs_rebuild(m0, kind[1]), f'rebuilt copy with the atoms inserted in breadth-first order from atom {kind[1]}', None
+        elif kind == 'random':
+            c, mp = domains.renumber(m0, r, offset=r.choice((0, 0, 7)))
+            inv, mp = {v: k_ for k_, v in mp.items()}, f'renumbered copy {mp}'
+        else:
+            c, mp, inv = special_numbering(m0, r, kind)
+            mp = f'copy with numbering {mp}'
         try:
             c.kekule()
             c.thiele()
         except InvalidAromaticRing as e:
-            bad.append(('N-numbering', f'{tag}: renumbered copy {mp} is rejected ({e}), original normalises to {sa}'))
+            bad.append((ncontract, f'{tag}: {mp} is rejected ({e}), original normalises to {sa}'))
             break
-        inv = {v: k_ for k_, v in mp.items()}
-        c.remap(inv)
-        if not same(c, a, stereo, c01):
-            uniqueness('N-numbering', f'{tag}: renumbered copy {mp} normalises to {canon(c, stereo)}, original to {sa}')
+        if inv is not None:
+            c.remap(inv)
+        if not same(c, a, stereo, c01, sa):
+            uniqueness(ncontract, f'{tag}: {mp} normalises to {canon(c, stereo)}, original to {sa}' + nnote)
             break
     return bad, (sa, a), has_ring
 
 
 # ---- workers ----------------------------------------------------------------------------------------------------------------------
-def check_smiles(s, stereo=False, rdkit=True, c01=None):
+def check_smiles(s, stereo=False, rdkit=True, c01=None, full=False):
     from chython import smiles
     m0 = smiles(s)
-    return check_molecule(m0, s, stereo=stereo, seed=env.SEED, rdkit_smiles=s if rdkit else None, c01=c01)
+    return check_molecule(m0, s, stereo=stereo, seed=env.SEED, rdkit_smiles=s if rdkit else None, c01=c01, full=full)
 
 
 class _Side(list):
@@ -331,13 +506,16 @@ class _Acc:
 def w_generated(chunk):
     _setup()
     acc = _Acc()
-    for name, pat, aro, kek, fam in chunk:
+    for name, pat, aro, kek, fam, *opt in chunk:       # opt (entries of oracles/o05_classes.py): RDKit usable for this text
+        rdk, full = (opt[0], True) if opt else (True, False)
         res = {}
         for label, s in (('aromatic', aro), ('kekule', kek)):
             if s is None:
                 continue
             wit = {'kind': 'smiles', 'smiles': s, 'template': name, 'family': fam, 'pattern': pat, 'spelling': label}
-            res[label] = acc.one(s, wit, lambda c01, s=s: check_smiles(s, c01=c01), {'template': name})
+            if opt:
+                wit.update(rdkit=rdk, full=True)
+            res[label] = acc.one(s, wit, lambda c01, s=s: check_smiles(s, rdkit=rdk, c01=c01, full=full), {'template': name})
         if len(res) == 2 and None not in res.values() and not same(res['aromatic'][1], res['kekule'][1], False, acc.c01):
             from oracles import o05_graph as G
             if G.has_unsaturated_four_ring(res['kekule'][1]):
@@ -348,6 +526,20 @@ def w_generated(chunk):
                 acc.viol.append((f'S-spelling:{aro}', f'{name} [{pat}]: aromatic spelling {aro} normalises to {res["aromatic"][0]}, '
                                  f'Kekule spelling {kek} to {res["kekule"][0]}',
                                  {'kind': 'pair', 'aromatic': aro, 'kekule': kek, 'template': name, 'family': fam}, [res['aromatic'][0], res['kekule'][0]]))
+    return acc.result()
+
+
+def w_trivial(chunk):
+    """inputs without a ring double bond system (and the empty molecule): every contract applies; K8 / T8 demand that both
+    conversions report False and change nothing"""
+    _setup()
+    from chython.containers import MoleculeContainer
+    acc = _Acc()
+    for s in chunk:
+        if s == '':
+            acc.one('<empty molecule>', {'kind': 'empty'}, lambda c01: check_molecule(MoleculeContainer(), '<empty molecule>', seed=env.SEED, c01=c01, full=True))
+        else:
+            acc.one(s, {'kind': 'smiles', 'smiles': s, 'full': True}, lambda c01, s=s: check_smiles(s, c01=c01, full=True))
     return acc.result()
 
 
@@ -377,7 +569,9 @@ def bounded(run):
     import os
     from bounded import domains
     from oracles import o05_domain as D
+    from oracles import o05_classes as X
     thorough = run.tier == 'thorough'
+    THOROUGH[0] = thorough          # read by the forked workers
     stats = Counter()
     vcount = Counter()
     c01_samples = []
@@ -397,7 +591,7 @@ def bounded(run):
             for key, what, wit, native in viol:
                 contract = key.split(':', 1)[0]
                 vcount[contract] += 1
-                fam = (contract, wit.get('family') or key)
+                fam = (contract, 'undetermined-NH' if contract == 'N-numbering-undetermined-NH' else wit.get('family') or key)
                 families.setdefault(fam, []).append((key, what, wit, native))
 
     def report():
@@ -415,6 +609,14 @@ def bounded(run):
               f'fused systems up to 4-5 rings) x substituent patterns over {D.SUBSTITUENTS} (unsubstituted, every single substitution, '
               f'{"every pair on templates with <= 6 positions, 6" if thorough else "3"} seeded multi-substitutions, perfluoro) = {len(gen)} molecules, '
               f'each as aromatic SMILES and as Kekule SMILES where both exist')
+    cls = list(X.generate(thorough))
+    collect(pmap(w_generated, [cls[i::32] for i in range(32) if cls[i::32]]), 'classes')
+    fams = Counter(c[4] for c in cls)
+    run.bound(f'input classes of oracles/o05_classes.py: {len(cls)} molecules in {len(fams)} classes ({", ".join(f"{k} {v}" for k, v in sorted(fams.items()))}), '
+              'each in one or two spellings, all sampled clauses evaluated')
+    triv = X.TRIVIAL + ['']
+    collect(pmap(w_trivial, [triv[i::4] for i in range(4)]), 'trivial')
+    run.bound(f'{len(triv)} inputs without ring double bond system (single atoms, acyclic, saturated rings, two components, the empty molecule)')
     sm = domains.corpus_sample(None if thorough else 300, 'c05')
     collect(pmap(w_corpus, [sm[i::64] for i in range(64) if sm[i::64]]), 'corpus')
     run.bound(f'corpus: {len(sm)} of the 4200 SMILES of pach/lipophilicity.csv (seeded sample in the quick tier)')
@@ -437,7 +639,11 @@ def bounded(run):
             collect(pmap(w_sdf, [list(range(nsdf))[i::16] for i in range(16)]), 'arenes')
             run.bound(f'test/arenes.sdf: {nsdf} polycyclic arenes given with aromatic bonds')
     report()
-    run.bound(f'enumerate_kekule(): first {MAXFORMS} forms per molecule; 2 seeded renumberings per molecule')
+    run.bound(f'enumerate_kekule(): first {MAXFORMS} forms per molecule; 2 seeded renumberings per molecule + shuffled insertion order + '
+              f'{"numbers with gaps > 999 and descending numbers > 999" if thorough else "one of (numbers with gaps > 999, descending numbers > 999)"}; '
+              f'kekule(buffer_size) for {BUFFERS[thorough][0]} on the input and {BUFFERS[thorough][1]} on the aromatic normal form (default 7 everywhere else); '
+              f'thiele(fix_tautomers=False) on every molecule, its enumerated-forms clause on '
+              f'{"every molecule" if thorough else "a seeded quarter of the molecules and on all input classes"}')
     run.assume('canonical strings are compared without stereo marks (format spec "!s"): stereo label canonicalisation is property C01, not C05',
                'charges / hydrogens may change only on atoms that a repair rule of aromatics/_rules.py (re-run on the input by the checker) names in its atom fix',
                'thiele() may move hydrogens between nitrogen atoms (documented fix_tautomers); with fix_tautomers=False no hydrogen moves',
@@ -451,6 +657,10 @@ def bounded(run):
                'and the input itself when it qualifies): straight after parsing, aromatic heteroatoms written without H have no count and the library '
                'documents them as pyrrole-or-pyridine ambiguous',
                'kekule() may reject an input (InvalidAromaticRing) - counted; it is a violation only where RDKit kekulises the same SMILES text',
+               'K5 (valence) looks at atoms that have a hydrogen count; an atom left without any count after kekule() is reported once, as K9-hydrogens-stale',
+               'RDKit is no oracle for mis-drawn rings / repair-rule inputs (classes marked nordkit): a rejection of such a text by kekule() is only counted',
+               'thiele(fix_tautomers=False) must give the same aromatic bonds as thiele() whenever thiele() moved no hydrogen (one aromatic form per molecule); '
+               'where the default call moved a hydrogen the two results are different tautomers and are not compared, and the clauses TD-normalises / EF3 are not evaluated',
                'one violation is reported per (contract, template family) with the minimal witness (shortest, then smallest key); further witnesses of the '
                'family are counted in the message')
     run.notes['c05_bounded_stats'] = dict(stats)
@@ -464,10 +674,13 @@ def replay(rec):
     want = rec['key'].split(':', 1)[0]
     if w.get('kind') == 'smiles':
         try:
-            bad, _, _ = check_smiles(w['smiles'])
+            bad, _, _ = check_smiles(w['smiles'], rdkit=w.get('rdkit', True), full=w.get('full', False))
         except Exception as e:
             print('exception', repr(e))
             return want != 'X-exception' and False
+    elif w.get('kind') == 'empty':
+        from chython.containers import MoleculeContainer
+        bad, _, _ = check_molecule(MoleculeContainer(), '<empty molecule>', seed=rec.get('seed', 0), full=True)
     elif w.get('kind') == 'pair':
         from bounded import domains
         a, k = domains.parse(w['aromatic']), domains.parse(w['kekule'])
